@@ -301,6 +301,8 @@ def u6(chk, repo, rule="U6"):
         rho, g, v, l = a.s("rho"), a.s("horseshoe_circulations"), a.s("force_pts_velocities"), a.s("bound_vecs")
         if rho is None:
             rho = a.s("rho[0]")
+        if rho is None:
+            rho = t.get("rho", array=False)  # not read at all: the identity below then fails, as it must
         want = rho * g * CROSS(v, l) if None not in (rho, g, v, l) else None
         check_identity(chk, rule, "PanelForces.panel_forces", c.where, _out(r, "panel_forces"), want, t, "F = rho Gamma (v x l)")
 
